@@ -12,3 +12,11 @@ void h_CanettiGennaroJareckiKrawczykRabinDKG(void) { CanettiGennaroJareckiKrawcz
   __CPROVER_assert(!r, "REACHABILITY-CANARY (must fail): an accepted parameter set exists"); }
 void h_CanettiGennaroJareckiKrawczykRabinDSS(void) { CanettiGennaroJareckiKrawczykRabinDSS *self; _Bool r = CanettiGennaroJareckiKrawczykRabinDSS__CheckGroup(self);
   __CPROVER_assert(!r, "REACHABILITY-CANARY (must fail): an accepted parameter set exists"); }
+void h_NaorPinkasEOTP(void) { NaorPinkasEOTP *self; _Bool r = NaorPinkasEOTP__CheckGroup(self);
+  __CPROVER_assert(!r, "REACHABILITY-CANARY (must fail): an accepted parameter set exists"); }
+void h_PedersenTrapdoorCommitmentScheme(void) { PedersenTrapdoorCommitmentScheme *self; _Bool r = PedersenTrapdoorCommitmentScheme__CheckGroup(self);
+  __CPROVER_assert(!r, "REACHABILITY-CANARY (must fail): an accepted parameter set exists"); }
+void h_JareckiLysyanskayaRVSS(void) { JareckiLysyanskayaRVSS *self; _Bool r = JareckiLysyanskayaRVSS__CheckGroup(self);
+  __CPROVER_assert(!r, "REACHABILITY-CANARY (must fail): an accepted parameter set exists"); }
+void h_HooghSchoenmakersSkoricVillegasVRHE(void) { HooghSchoenmakersSkoricVillegasVRHE *self; _Bool r = HooghSchoenmakersSkoricVillegasVRHE__CheckGroup(self);
+  __CPROVER_assert(!r, "REACHABILITY-CANARY (must fail): an accepted parameter set exists"); }
